@@ -281,7 +281,8 @@ class Runner:
         params = [f for f in res["functions"] if f["cname"] == unit.target][0]["params"]
         state, snap = {}, None
         seen_params = None
-        excerpt = []
+        import collections
+        excerpt = collections.deque(maxlen=300)
         wrapped = unit.target + "_wrapped_for_contract_checking"
         for st in trace:
             if st.get("stepType") == "function-call" and snap is None:
@@ -306,11 +307,11 @@ class Runner:
                 seen_params.add(base)
                 if len(seen_params) == len(params):
                     snap = dict(state)
-            if len(excerpt) < 2000 and not lhs.startswith("tmp_"):
+            if not lhs.startswith("tmp_") and snap is not None:
                 for k, v in flat.items():
                     excerpt.append("%s=%s" % (k, v))
         if snap is None:
-            return None, "\n".join(excerpt[-200:])
+            return None, "\n".join(excerpt)
         inputs = {}
         for p in params:
             if p in snap:
@@ -344,7 +345,7 @@ class Runner:
                 if nk not in inputs:
                     inputs[nk] = val
                     work.append((nk, str(val)))
-        return inputs, "\n".join(excerpt[-200:])
+        return inputs, "\n".join(excerpt)
 
 
 def flatten_value(lhs, val, out):
